@@ -165,6 +165,7 @@ def parse_tags(text):
     :return: List of tags (if successful).
     """
     # assert isinstance(text, unicode)
+    text = text.strip()     # -- INDENTATION: Is not relevant (like in a feature file).
     if not text:
         return []
     parser = Parser(variant="tags")
